@@ -342,12 +342,16 @@ pub fn run_lw(scn: &C10Scenario, stats: &mut RunStats) -> Vec<Violation> {
         Ok(None) => {}
         Ok(Some(first)) => {
             // real time: only a mismatch that shows again with doubled waits is reported
-            match attempt(scn, 2, stats) {
+            match attempt(scn, 2, stats).and_then(|second| match second {
+                // ... and a third time with four times the waits
+                Some(_) => attempt(scn, 4, stats),
+                None => Ok(None),
+            }) {
                 Ok(Some(second)) => violations.push(Violation::new(
                     P,
                     "equal",
                     "real-watch-differs",
-                    format!("{}\n(reproduced with doubled waits: {})", first, second.lines().next().unwrap_or("")),
+                    format!("{}\n(reproduced with doubled and with fourfold waits: {})", first, second.lines().next().unwrap_or("")),
                 )),
                 Ok(None) => {
                     *stats.ops.entry("real:unconfirmed-mismatch".to_owned()).or_insert(0) += 1;
